@@ -219,6 +219,9 @@ var pureCallees = map[string]bool{
 	"(reflect.Value).Interface": true,
 }
 
+// IsPureCallee reports whether the named callee is one of the listed pure functions.
+func IsPureCallee(name string) bool { return pureCallees[name] }
+
 // PathEnv, when set, substitutes parameters of a helper by the caller's
 // argument values while rendering paths (virtual inlining, one level).
 var PathEnv map[*ssa.Parameter]ssa.Value
